@@ -87,6 +87,10 @@ Lemma go_kterm l :
   (fix go (l : list term) : bool := match l with [] => true | a :: l' => kterm a && go l' end) l = forallb kterm l.
 Proof. induction l as [|a l IH]; simpl; [reflexivity|]. now rewrite IH. Qed.
 
+Lemma kterm_app c a args :
+  kterm (App c (a :: args)) = forallb kterm (a :: args) && closes (c :: pts (a :: args)).
+Proof. cbn [kterm]. rewrite go_kterm. reflexivity. Qed.
+
 Lemma wf_term_split M t :
   wf_term M t = true <->
   kterm t = true /\ (forall x, In x (term_mvs t) -> In x M) /\ (forall c, In c (term_nullary t) -> ~ In c M).
@@ -99,9 +103,11 @@ Proof.
     + cbn [wf_term kterm term_mvs term_nullary flat_map]. rewrite andb_true_iff, negb_true_iff, mem_false. split.
       * intros [H1 H2]. repeat split; [assumption|intros ? []|]. intros y [<-|[]]. assumption.
       * intros (H1 & _ & H3). split; [apply H3; now left|assumption].
-    + rewrite wf_term_app. cbn [kterm]. rewrite go_kterm.
+    + rewrite wf_term_app, kterm_app.
+      change (term_mvs (App c (a :: args))) with (flat_map term_mvs (a :: args)).
+      change (term_nullary (App c (a :: args))) with (flat_map term_nullary (a :: args)).
+      remember (a :: args) as l eqn:El. clear El a args.
       rewrite !andb_true_iff. unfold wf_terms. rewrite !forallb_forall.
-      cbn [term_mvs term_nullary].
       split.
       * intros [Hw Hc]. split; [split; [|assumption]|split].
         -- intros t Ht. rewrite Forall_forall in IH. apply (IH t Ht). now apply Hw.
@@ -131,3 +137,531 @@ Proof.
     + intros x Hx. apply Hm. apply in_flat_map. eauto.
     + intros x Hx. apply Hn. apply in_flat_map. eauto.
 Qed.
+
+(* ------------------------------------------------------------------ statements *)
+Definition is_some {A} (o : option A) : bool := match o with Some _ => true | None => false end.
+
+Fixpoint kshape (s : stmt) : bool :=
+  match s with
+  | SC _ | SV _ => false
+  | SD vs => nonnil vs
+  | SF _ _ _ => true
+  | SE _ ts | SA _ ts => nonnil ts && forallb kterm ts
+  | SP _ ts pf => nonnil ts && forallb kterm ts && is_some pf
+  | SB ss => (fix go (l : list stmt) : bool := match l with [] => true | a :: l' => kshape a && go l' end) ss
+  end.
+
+Fixpoint nodecl (s : stmt) : bool :=
+  match s with
+  | SC _ | SV _ => false
+  | SB ss => (fix go (l : list stmt) : bool := match l with [] => true | a :: l' => nodecl a && go l' end) ss
+  | _ => true
+  end.
+
+Lemma go_kshape l :
+  (fix go (l : list stmt) : bool := match l with [] => true | a :: l' => kshape a && go l' end) l = forallb kshape l.
+Proof. induction l as [|a l IH]; simpl; [reflexivity|]. now rewrite IH. Qed.
+Lemma go_nodecl l :
+  (fix go (l : list stmt) : bool := match l with [] => true | a :: l' => nodecl a && go l' end) l = forallb nodecl l.
+Proof. induction l as [|a l IH]; simpl; [reflexivity|]. now rewrite IH. Qed.
+Lemma kshape_block ss : kshape (SB ss) = forallb kshape ss.
+Proof. cbn [kshape]. apply go_kshape. Qed.
+Lemma nodecl_block ss : nodecl (SB ss) = forallb nodecl ss.
+Proof. cbn [nodecl]. apply go_nodecl. Qed.
+
+Definition uses_ok (M : list string) (s : stmt) : Prop :=
+  incl (stmt_mvs s) M /\ (forall c, In c (stmt_nullary s) -> ~ In c M).
+
+Lemma uses_ok_block M ss : uses_ok M (SB ss) <-> Forall (uses_ok M) ss.
+Proof.
+  unfold uses_ok. cbn [stmt_mvs stmt_nullary]. rewrite Forall_forall. split.
+  - intros [H1 H2] s Hs. split.
+    + intros x Hx. apply H1. apply in_flat_map. eauto.
+    + intros c Hc. apply H2. apply in_flat_map. eauto.
+  - intros H. split.
+    + intros x Hx. apply in_flat_map in Hx. destruct Hx as [s [Hs Hx]]. now apply (H s Hs).
+    + intros c Hc. apply in_flat_map in Hc. destruct Hc as [s [Hs Hc]]. now apply (H s Hs).
+Qed.
+
+Lemma wf_of_kshape s : forall M, kshape s = true -> uses_ok M s -> wf_stmt M s = true /\ decl s = [].
+Proof.
+  induction s as [cs|vs|vs|l ty v|l ts|l ts|l ts pf|ss IH] using stmt_ind2; intros M K [U1 U2];
+    cbn [kshape] in K; try discriminate; cbn [wf_stmt decl stmt_mvs stmt_nullary] in *.
+  - split; [|reflexivity]. rewrite K. cbn [andb]. now apply forallb_mem_incl.
+  - split; [|reflexivity]. apply mem_In. apply U1. now left.
+  - apply andb_true_iff in K. destruct K as [K1 K2]. split; [|reflexivity]. rewrite K1. cbn [andb].
+    apply wf_terms_split. auto.
+  - apply andb_true_iff in K. destruct K as [K1 K2]. split; [|reflexivity]. rewrite K1. cbn [andb].
+    apply wf_terms_split. auto.
+  - apply andb_true_iff in K. destruct K as [K K3]. apply andb_true_iff in K. destruct K as [K1 K2].
+    split; [|reflexivity]. rewrite K1. cbn [andb].
+    replace (wf_terms M ts) with true by (symmetry; apply wf_terms_split; auto).
+    destruct pf; [reflexivity|discriminate].
+  - rewrite go_kshape in K. rewrite go_wf_stmts.
+    assert (U : Forall (uses_ok M) ss) by (apply uses_ok_block; split; assumption).
+    clear U1 U2. induction ss as [|a ss IHss]; [split; reflexivity|].
+    inversion IH as [|? ? IHa IHr]; subst. inversion U as [|? ? Ua Ur]; subst.
+    cbn [forallb] in K. apply andb_true_iff in K. destruct K as [Ka Kr].
+    destruct (IHa M Ka Ua) as [Wa Da]. destruct (IHss IHr Kr Ur) as [Wr Dr].
+    cbn [wf_stmts flat_map]. rewrite Wa, Da, app_nil_r. split; [exact Wr|exact Dr].
+Qed.
+
+Lemma nodecl_decl s : nodecl s = true -> decl s = [].
+Proof.
+  induction s as [cs|vs|vs|l ty v|l ts|l ts|l ts pf|ss IH] using stmt_ind2; intros N;
+    cbn [nodecl decl] in *; try reflexivity; try discriminate.
+  rewrite go_nodecl in N. induction ss as [|a ss IHss]; [reflexivity|].
+  inversion IH as [|? ? IHa IHr]; subst. cbn [forallb] in N. apply andb_true_iff in N. destruct N as [Na Nr].
+  cbn [flat_map]. rewrite (IHa Na), (IHss IHr Nr). reflexivity.
+Qed.
+
+Lemma kshape_of_wf s : forall M, wf_stmt M s = true -> nodecl s = true -> kshape s = true /\ uses_ok M s.
+Proof.
+  induction s as [cs|vs|vs|l ty v|l ts|l ts|l ts pf|ss IH] using stmt_ind2; intros M W N;
+    cbn [nodecl] in N; try discriminate; cbn [wf_stmt kshape] in *.
+  - unfold uses_ok; cbn [stmt_mvs stmt_nullary].
+    apply andb_true_iff in W. destruct W as [W1 W2]. split; [assumption|]. split; [|intros ? []].
+    now apply forallb_mem_incl.
+  - unfold uses_ok; cbn [stmt_mvs stmt_nullary].
+    split; [reflexivity|]. split; [|intros ? []]. intros x [<-|[]]. now apply mem_In.
+  - unfold uses_ok; cbn [stmt_mvs stmt_nullary].
+    apply andb_true_iff in W. destruct W as [W1 W2]. apply wf_terms_split in W2. destruct W2 as (A & B & C).
+    rewrite W1, A. split; [reflexivity|]. split; assumption.
+  - unfold uses_ok; cbn [stmt_mvs stmt_nullary].
+    apply andb_true_iff in W. destruct W as [W1 W2]. apply wf_terms_split in W2. destruct W2 as (A & B & C).
+    rewrite W1, A. split; [reflexivity|]. split; assumption.
+  - unfold uses_ok; cbn [stmt_mvs stmt_nullary].
+    apply andb_true_iff in W. destruct W as [W W3]. apply andb_true_iff in W. destruct W as [W1 W2].
+    apply wf_terms_split in W2. destruct W2 as (A & B & C).
+    rewrite W1, A. destruct pf; [|discriminate]. split; [reflexivity|]. split; assumption.
+  - rewrite go_kshape. rewrite go_wf_stmts in W. rewrite go_nodecl in N.
+    rewrite uses_ok_block.
+    induction ss as [|a ss IHss]; [split; [reflexivity|constructor]|].
+    inversion IH as [|? ? IHa IHr]; subst.
+    cbn [forallb] in N. apply andb_true_iff in N. destruct N as [Na Nr].
+    cbn [wf_stmts] in W. apply andb_true_iff in W. destruct W as [Wa Wr].
+    rewrite (nodecl_decl a Na), app_nil_r in Wr.
+    destruct (IHa M Wa Na) as [Ka Ua]. destruct (IHss IHr Wr Nr) as [Kr Ur].
+    cbn [forallb]. rewrite Ka, Kr. split; [reflexivity|]. constructor; assumption.
+Qed.
+
+(* ------------------------------------------------------------------ dictionary *)
+Definition okey (kv : option string * stmt) : list string := match fst kv with Some k => [k] | None => [] end.
+Definition keys (d : dict) : list string := flat_map okey d.
+
+Lemma dict_get_In k d st : dict_get k d = Some st -> In (Some k, st) d.
+Proof.
+  induction d as [|[k' v] d IH]; simpl; [discriminate|].
+  destruct k' as [x|]; cbn [key_eqb].
+  - destruct (String.eqb_spec k x) as [->|Hne].
+    + intros H. injection H as <-. now left.
+    + intros H. right. auto.
+  - intros H. right. auto.
+Qed.
+
+Lemma dict_get_unique d : NoDup (keys d) -> forall k st, In (Some k, st) d -> dict_get k d = Some st.
+Proof.
+  induction d as [|[k' v] d IH]; intros ND k st Hin; [destruct Hin|].
+  simpl. destruct Hin as [E|Hin].
+  - injection E as -> ->. cbn [key_eqb]. now rewrite String.eqb_refl.
+  - destruct k' as [x|]; cbn [key_eqb].
+    + unfold keys in ND. cbn [flat_map okey fst app] in ND. inversion ND as [|? ? Hx ND']; subst.
+      destruct (String.eqb_spec k x) as [->|Hne].
+      * exfalso. apply Hx. apply in_flat_map. exists (Some x, st). split; [assumption|now left].
+      * now apply IH.
+    + unfold keys in ND. cbn [flat_map okey fst app] in ND. now apply IH.
+Qed.
+
+Lemma dict_set_In k v d kv : In kv (dict_set k v d) -> kv = (Some k, v) \/ In kv d.
+Proof.
+  induction d as [|[k' v'] d IH]; simpl.
+  - intros [<-|[]]. now left.
+  - destruct (key_eqb k k').
+    + intros [<-|H]; [now left|right; now right].
+    + intros [<-|H]; [right; now left|]. destruct (IH H) as [->|H']; [now left|right; now right].
+Qed.
+
+Lemma dict_set_keys k v d x : In x (keys (dict_set k v d)) -> x = k \/ In x (keys d).
+Proof.
+  intros H. apply in_flat_map in H. destruct H as [kv [Hkv Hx]].
+  apply dict_set_In in Hkv. destruct Hkv as [->|Hkv].
+  - destruct Hx as [<-|[]]. now left.
+  - right. apply in_flat_map. eauto.
+Qed.
+
+Lemma dict_set_nodup k v d : NoDup (keys d) -> NoDup (keys (dict_set k v d)).
+Proof.
+  induction d as [|[k' v'] d IH]; intros ND.
+  - simpl. constructor; [intros []|constructor].
+  - simpl. destruct k' as [x|]; cbn [key_eqb].
+    + unfold keys in *. cbn [flat_map okey fst app] in ND. inversion ND as [|? ? Hx ND']; subst.
+      destruct (String.eqb_spec k x) as [->|Hne].
+      * cbn [flat_map okey fst app]. constructor; assumption.
+      * cbn [flat_map okey fst app]. constructor; [|now apply IH].
+        intros H. apply (dict_set_keys k v d x) in H. destruct H as [->|H]; [congruence|contradiction].
+    + unfold keys in *. cbn [flat_map okey fst app] in *. now apply IH.
+Qed.
+
+Lemma keys_app (d1 d2 : dict) : keys (d1 ++ d2)%list = (keys d1 ++ keys d2)%list.
+Proof. unfold keys. apply flat_map_app. Qed.
+
+(* ------------------------------------------------------------------ match_axiom / deconstruct_provable *)
+Lemma ma_loop_ok : forall f q last l, ma_loop f q last = MAx l ->
+  forallb nodecl q = true /\
+  (exists ts, (In (SA l ts) q \/ last = Some (SA l ts)) \/ exists b, In b q /\ In l (stmt_labels b)).
+Proof.
+  induction f as [|f IH]; intros q last l H; [discriminate|].
+  cbn [ma_loop] in H. destruct q as [|s q'].
+  - destruct last as [[]|]; try discriminate. injection H as ->. split; [reflexivity|].
+    eexists. left. right. reflexivity.
+  - assert (Hnb : (forall ss, s <> SB ss) -> ok_in_axiom_block s = true -> ma_loop f q' (Some s) = MAx l ->
+                  forallb nodecl (s :: q') = true /\
+                  (exists ts, (In (SA l ts) (s :: q') \/ last = Some (SA l ts)) \/
+                              exists b, In b (s :: q') /\ In l (stmt_labels b))).
+    { intros Hs Hok H'. apply IH in H'. destruct H' as [N [ts R]]. split.
+      - cbn [forallb]. rewrite N. destruct s; try discriminate; try reflexivity. exfalso. now apply (Hs ss).
+      - destruct R as [[R|R]|[b [Hb Hl]]].
+        + exists ts. left. left. now right.
+        + injection R as ->. exists ts. left. left. now left.
+        + exists ts. right. exists b. split; [now right|assumption]. }
+    destruct s; try discriminate; try (apply Hnb; [intros ? ?; discriminate|reflexivity|exact H]).
+    (* block *)
+    apply IH in H. destruct H as [N [ts R]].
+    rewrite forallb_app in N. apply andb_true_iff in N. destruct N as [N1 N2]. split.
+    + cbn [forallb]. rewrite nodecl_block, N2, N1. reflexivity.
+    + destruct R as [[R|R]|[b [Hb Hl]]].
+      * apply in_app_or in R. destruct R as [R|R].
+        -- exists ts. left. left. now right.
+        -- exists ts. right. exists (SB ss). split; [now left|].
+           cbn [stmt_labels]. apply in_flat_map. exists (SA l ts). split; [assumption|now left].
+      * discriminate.
+      * apply in_app_or in Hb. destruct Hb as [Hb|Hb].
+        -- exists ts. right. exists b. split; [now right|assumption].
+        -- exists ts. right. exists (SB ss). split; [now left|].
+           cbn [stmt_labels]. apply in_flat_map. eauto.
+Qed.
+
+Lemma match_axiom_ok st l : match_axiom st = MAx l -> nodecl st = true /\ In l (stmt_labels st).
+Proof.
+  destruct st; cbn [match_axiom]; try discriminate.
+  - intros H. injection H as ->. split; [reflexivity|now left].
+  - intros H. apply ma_loop_ok in H. destruct H as [N [ts R]]. split; [now rewrite nodecl_block|].
+    cbn [stmt_labels]. destruct R as [[R|R]|[b [Hb Hl]]].
+    + apply in_flat_map. exists (SA l ts). split; [assumption|now left].
+    + discriminate.
+    + apply in_flat_map. eauto.
+Qed.
+
+Lemma forallb_rev {A} (f : A -> bool) l : forallb f (rev l) = forallb f l.
+Proof.
+  induction l as [|a l IH]; [reflexivity|]. simpl. rewrite forallb_app, IH. simpl.
+  rewrite andb_true_r. apply andb_comm.
+Qed.
+
+Lemma deconstruct_provable_ok st ants l ts pf :
+  deconstruct_provable st = Some (ants, l, ts, pf) ->
+  forallb is_SD_SE ants = true /\ (st = SP l ts pf /\ ants = [] \/ st = SB (ants ++ [SP l ts pf])).
+Proof.
+  destruct st; cbn [deconstruct_provable]; try discriminate.
+  - intros H. injection H as <- <- <- <-. split; [reflexivity|now left].
+  - destruct (rev ss) as [|last rants] eqn:E; [discriminate|].
+    destruct last; try discriminate.
+    destruct (forallb is_SD_SE rants) eqn:F; [|discriminate].
+    intros H. injection H as <- <- <- <-. split; [now rewrite forallb_rev|].
+    right. f_equal. rewrite <- (rev_involutive ss), E. reflexivity.
+Qed.
+
+(* ------------------------------------------------------------------ constants *)
+Lemma term_syms_consts t x : In x (term_syms t) -> x = LP \/ x = RP \/ In x (term_consts t).
+Proof.
+  induction t as [y|c args IH] using term_ind2; cbn [term_syms term_consts]; [intros []|].
+  destruct args as [|a args].
+  - intros [<-|[]]. right. right. now left.
+  - intros [<-|[<-|H]]; [now left|right; right; now left|].
+    apply in_app_or in H. destruct H as [H|[<-|[]]]; [|right; now left].
+    apply in_flat_map in H. destruct H as [t [Ht Hx]].
+    rewrite Forall_forall in IH. destruct (IH t Ht Hx) as [->|[->|H]]; [now left|right; now left|].
+    right. right. right. apply in_flat_map. eauto.
+Qed.
+
+Lemma stmts_consts_In l cs : stmts_consts l = Some cs ->
+  forall st, In st l -> exists c, stmt_consts st = Some c /\ incl c cs.
+Proof.
+  revert cs. induction l as [|a l IH]; intros cs H st Hst; [destruct Hst|].
+  cbn [stmts_consts] in H. destruct (stmt_consts a) as [x|] eqn:E; [|discriminate].
+  destruct (stmts_consts l) as [y|]; [|discriminate]. injection H as <-.
+  destruct Hst as [->|Hst].
+  - exists x. split; [assumption|]. apply incl_appl, incl_refl.
+  - destruct (IH y eq_refl st Hst) as [c [H1 H2]]. exists c. split; [assumption|]. now apply incl_appr.
+Qed.
+
+Lemma go_stmt_consts l :
+  (fix go (l : list stmt) : option (list string) :=
+     match l with
+     | [] => Some []
+     | a :: l' => match stmt_consts a, go l' with Some x, Some y => Some (x ++ y)%list | _, _ => None end
+     end) l = stmts_consts l.
+Proof. induction l as [|a l IH]; [reflexivity|]. cbn [stmts_consts]. now rewrite IH. Qed.
+
+Lemma go_chk l : forall cs vs,
+  (fix go (cs' vs' : list string) (l : list stmt) : bool :=
+     match l with
+     | [] => true
+     | a :: l' => match chk_stmt cs' vs' a with Some (c2, v2) => go c2 v2 l' | None => false end
+     end) cs vs l = chk_stmts cs vs l.
+Proof.
+  induction l as [|a l IH]; intros cs vs; [reflexivity|]. cbn [chk_stmts].
+  destruct (chk_stmt cs vs a) as [[c2 v2]|]; [apply IH|reflexivity].
+Qed.
+
+Lemma forallb_mem_incl' (l m : list string) : incl l m -> forallb (fun v => mem v m) l = true.
+Proof. apply forallb_mem_incl. Qed.
+
+(** a kept statement type-checks against the slice's declarations *)
+Lemma chk_kept st : forall C M c, nodecl st = true -> stmt_consts st = Some c -> incl c C ->
+  In LP C -> In RP C -> incl (stmt_mvs st) M -> chk_stmt C M st = Some (C, M).
+Proof.
+  induction st as [cs|vs|vs|l ty v|l ts|l ts|l ts pf|ss IH] using stmt_ind2; intros C M c N SC IC HL HR IM;
+    cbn [nodecl] in N; try discriminate; cbn [chk_stmt stmt_consts stmt_mvs] in *.
+  - now rewrite (forallb_mem_incl' _ _ IM).
+  - injection SC as <-.
+    replace (mem ty C) with true by (symmetry; apply mem_In, IC; now left).
+    replace (mem v M) with true by (symmetry; apply mem_In, IM; now left). reflexivity.
+  - injection SC as <-. rewrite (forallb_mem_incl' _ _ IM).
+    replace (forallb (fun c => mem c C) (flat_map term_syms ts)) with true; [reflexivity|].
+    symmetry. apply forallb_mem_incl. intros x Hx. apply in_flat_map in Hx. destruct Hx as [t [Ht Hx]].
+    destruct (term_syms_consts t x Hx) as [->|[->|H]]; try assumption. apply IC. apply in_flat_map. eauto.
+  - injection SC as <-. rewrite (forallb_mem_incl' _ _ IM).
+    replace (forallb (fun c => mem c C) (flat_map term_syms ts)) with true; [reflexivity|].
+    symmetry. apply forallb_mem_incl. intros x Hx. apply in_flat_map in Hx. destruct Hx as [t [Ht Hx]].
+    destruct (term_syms_consts t x Hx) as [->|[->|H]]; try assumption. apply IC. apply in_flat_map. eauto.
+  - injection SC as <-. rewrite (forallb_mem_incl' _ _ IM).
+    replace (forallb (fun c => mem c C) (flat_map term_syms ts)) with true; [reflexivity|].
+    symmetry. apply forallb_mem_incl. intros x Hx. apply in_flat_map in Hx. destruct Hx as [t [Ht Hx]].
+    destruct (term_syms_consts t x Hx) as [->|[->|H]]; try assumption. apply IC. apply in_flat_map. eauto.
+  - rewrite go_chk. rewrite go_nodecl in N. rewrite go_stmt_consts in SC.
+    replace (chk_stmts C M ss) with true; [reflexivity|]. symmetry.
+    revert c SC IC IM. induction ss as [|a ss IHss]; intros c SC IC IM; [reflexivity|].
+    inversion IH as [|? ? IHa IHr]; subst.
+    cbn [forallb] in N. apply andb_true_iff in N. destruct N as [Na Nr].
+    cbn [stmts_consts] in SC. destruct (stmt_consts a) as [x|] eqn:Ea; [|discriminate].
+    destruct (stmts_consts ss) as [y|] eqn:Es; [|discriminate]. injection SC as <-.
+    cbn [chk_stmts]. rewrite (IHa C M x Na eq_refl).
+    + apply (IHss IHr Nr y eq_refl).
+      * intros z Hz. apply IC. apply in_or_app. now right.
+      * intros z Hz. apply IM. cbn [flat_map]. apply in_or_app. now right.
+    + intros z Hz. apply IC. apply in_or_app. now left.
+    + assumption.
+    + assumption.
+    + intros z Hz. apply IM. cbn [flat_map]. apply in_or_app. now left.
+Qed.
+
+Lemma chk_stmts_kept l : forall C M cs, Forall (fun st => nodecl st = true /\ incl (stmt_mvs st) M) l ->
+  stmts_consts l = Some cs -> incl cs C -> In LP C -> In RP C -> forall rest,
+  chk_stmts C M (l ++ rest) = chk_stmts C M rest.
+Proof.
+  induction l as [|a l IH]; intros C M cs F SC IC HL HR rest; [reflexivity|].
+  inversion F as [|? ? [Na Ma] Fr]; subst.
+  cbn [stmts_consts] in SC. destruct (stmt_consts a) as [x|] eqn:Ea; [|discriminate].
+  destruct (stmts_consts l) as [y|] eqn:Es; [|discriminate]. injection SC as <-.
+  cbn [app chk_stmts]. rewrite (chk_kept a C M x Na Ea); try assumption.
+  - apply (IH C M y Fr eq_refl); try assumption. intros z Hz. apply IC, in_or_app. now right.
+  - intros z Hz. apply IC, in_or_app. now left.
+Qed.
+
+Lemma wf_header C M rest : C <> [] ->
+  wf_stmts [] (SC C :: (match M with [] => [] | _ => [SV M] end) ++ rest) = wf_stmts M rest.
+Proof. intros HC. destruct C; [congruence|]. destruct M; reflexivity. Qed.
+
+Lemma chk_header C M rest :
+  chk_stmts [] [] (SC C :: (match M with [] => [] | _ => [SV M] end) ++ rest) = chk_stmts C M rest.
+Proof. destruct M; reflexivity. Qed.
+
+(* ------------------------------------------------------------------ the invariant of slice_loop *)
+Section Inv.
+  Variable V Z : list string.
+  Hypothesis disj : forall c, In c Z -> ~ In c V.
+
+  Definition entry_ok (st : stmt) : Prop :=
+    kshape st = true /\ nodecl st = true /\ incl (stmt_mvs st) V /\ incl (stmt_nullary st) Z.
+  Definition src_ok (st : stmt) : Prop :=
+    exists M0, incl M0 V /\ wf_stmt M0 st = true /\ incl (stmt_nullary st) Z.
+  Definition kv_ok (kv : option string * stmt) : Prop :=
+    entry_ok (snd kv) /\ match fst kv with Some k => In k (stmt_labels (snd kv)) | None => True end.
+  Definition cut_inv (cut : dict) : Prop := Forall kv_ok cut /\ NoDup (keys cut).
+
+  Lemma src_entry st : src_ok st -> nodecl st = true -> entry_ok st.
+  Proof.
+    intros (M0 & HM & W & HZ) N. destruct (kshape_of_wf st M0 W N) as [K [U1 U2]].
+    repeat split; try assumption. intros x Hx. apply HM, U1, Hx.
+  Qed.
+
+  Lemma entry_wf st M : entry_ok st -> incl (stmt_mvs st) M -> incl M V -> wf_stmt M st = true /\ decl st = [].
+  Proof.
+    intros (K & N & HV & HZ) HM HMV. apply wf_of_kshape; [assumption|]. split; [assumption|].
+    intros c Hc Hin. apply (disj c); [apply HZ, Hc|apply HMV, Hin].
+  Qed.
+
+  Lemma cut_inv_set k v cut : cut_inv cut -> entry_ok v -> In k (stmt_labels v) -> cut_inv (dict_set k v cut).
+  Proof.
+    intros [F ND] Hv Hk. split; [|now apply dict_set_nodup].
+    apply Forall_forall. intros kv Hkv. apply dict_set_In in Hkv. destruct Hkv as [->|Hkv].
+    - split; assumption.
+    - rewrite Forall_forall in F. now apply F.
+  Qed.
+
+  Lemma cut_inv_anon v cut : cut_inv cut -> entry_ok v -> cut_inv (dict_add_anon v cut).
+  Proof.
+    intros [F ND] Hv. unfold dict_add_anon. split.
+    - apply Forall_app. split; [assumption|]. constructor; [|constructor]. split; [assumption|exact I].
+    - rewrite keys_app. unfold keys at 2. cbn. now rewrite app_nil_r.
+  Qed.
+
+  Lemma wf_stmts_nodecl M l : Forall (fun st => wf_stmt M st = true /\ decl st = []) l -> forall rest,
+    wf_stmts M (l ++ rest) = wf_stmts M rest.
+  Proof.
+    induction l as [|a l IH]; intros F rest; [reflexivity|].
+    inversion F as [|? ? [Wa Da] Fr]; subst. cbn [app wf_stmts]. rewrite Wa, Da, app_nil_r. now apply IH.
+  Qed.
+
+  Lemma proof_labels_some pf labels : proof_labels pf = Some labels -> is_some pf = true.
+  Proof. destruct pf; [reflexivity|discriminate]. Qed.
+
+  (** the heart: what [supporting_database_for_provable] returns is a well-formed, self-declaring database *)
+  Lemma supporting_good cut sd l ts pf ess s :
+    cut_inv cut -> entry_ok (SP l ts pf) -> Forall entry_ok ess ->
+    supporting sguards_fixed cut [] sd l ts pf ess = Some s ->
+    wf_db s = true /\ declares_all s = true /\ labels_resolve s.
+  Proof.
+    intros [CF ND] EP EE H. unfold supporting in H.
+    destruct (proof_labels pf) as [labels|] eqn:EL; [|discriminate].
+    set (n1 := (labels ++ flat_map (sugar_of cut) labels)%list) in *.
+    set (n2 := (n1 ++ flat_map (fun x => match assoc_get x sd with Some d => d | None => [] end) n1)%list) in *.
+    destruct (map_opt (fun x => dict_get x cut) n2) as [nst|] eqn:EN; [|discriminate].
+    set (top_ess := filter is_SE (map snd cut)) in *.
+    set (all := (SP l ts pf :: ess ++ top_ess ++ nst)%list) in *.
+    destruct (stmts_consts all) as [cs|] eqn:ECS; [|discriminate].
+    set (M := sort_uniq (flat_map stmt_mvs all)) in *.
+    set (kept := flat_map (keep_entry sguards_fixed n2 M) cut) in *.
+    cbn [g_float_consts sguards_fixed] in H.
+    destruct (stmts_consts kept) as [cs2|] eqn:ECS2; [|discriminate].
+    injection H as <-. cbn [filter map app].
+    set (C := sort_uniq (builtins ++ cs ++ cs2)).
+    (* facts *)
+    assert (HallM : forall st, In st all -> incl (stmt_mvs st) M).
+    { intros st Hst x Hx. apply sort_uniq_In. apply in_flat_map. eauto. }
+    assert (Hall_ok : forall st, In st all -> entry_ok st).
+    { intros st [<-|Hst]; [assumption|]. apply in_app_or in Hst. destruct Hst as [Hst|Hst].
+      - rewrite Forall_forall in EE. now apply EE.
+      - apply in_app_or in Hst. destruct Hst as [Hst|Hst].
+        + apply filter_In in Hst. destruct Hst as [Hst _]. apply in_map_iff in Hst.
+          destruct Hst as [kv [<- Hkv]]. rewrite Forall_forall in CF. now apply (CF kv Hkv).
+        + destruct (map_opt_In_rev _ _ _ EN st Hst) as [k [_ Hk]]. apply dict_get_In in Hk.
+          rewrite Forall_forall in CF. now apply (CF _ Hk). }
+    assert (HMV : incl M V).
+    { intros x Hx. unfold M in Hx. apply (proj1 (sort_uniq_In _ _)) in Hx.
+      apply in_flat_map in Hx. destruct Hx as [st [Hst Hx]].
+      destruct (Hall_ok st Hst) as (_ & _ & HV & _). now apply HV. }
+    assert (Hkept : forall st, In st kept ->
+              entry_ok st /\ incl (stmt_mvs st) M /\ wf_stmt M st = true /\ decl st = []).
+    { intros st Hst. apply in_flat_map in Hst. destruct Hst as [kv [Hkv Hst]].
+      rewrite Forall_forall in CF. destruct (CF kv Hkv) as [Ekv Lkv].
+      unfold keep_entry in Hst. destruct kv as [k st0]. cbn [fst snd] in *.
+      assert (Hgen : (key_in k n2 || match st0 with SF _ _ v => mem v M | SE _ _ => true | _ => false end) = true ->
+                     incl (stmt_mvs st0) M).
+      { intros Hk. apply orb_true_iff in Hk. destruct Hk as [Hk|Hk].
+        - destruct k as [k|]; [|discriminate]. cbn [key_in] in Hk. apply mem_In in Hk.
+          destruct (map_opt_In _ _ _ EN k Hk) as [b [Hb Hbin]].
+          rewrite (dict_get_unique cut ND k st0 Hkv) in Hb. injection Hb as <-.
+          apply HallM. right. apply in_or_app. right. apply in_or_app. now right.
+        - destruct st0; try discriminate.
+          + cbn [stmt_mvs]. intros x [<-|[]]. now apply mem_In.
+          + apply HallM. right. apply in_or_app. right. apply in_or_app. left.
+            apply filter_In. split; [|reflexivity]. apply in_map_iff. exists (k, SE l0 ts0). split; [reflexivity|assumption]. }
+      assert (Hns : In st (if key_in k n2 || match st0 with SF _ _ v => mem v M | SE _ _ => true | _ => false end
+                           then [st0] else []) ->
+                    entry_ok st /\ incl (stmt_mvs st) M /\ wf_stmt M st = true /\ decl st = []).
+      { intros Hst'.
+        destruct (key_in k n2 || match st0 with SF _ _ v => mem v M | SE _ _ => true | _ => false end) eqn:Ek;
+          [|destruct Hst'].
+        destruct Hst' as [<-|[]]. pose proof (Hgen eq_refl) as HM0.
+        destruct (entry_wf _ M Ekv HM0 HMV) as [W D]. repeat split; try assumption; apply Ekv. }
+      destruct st0 as [cs0|vs0|vs0|l0 ty0 v0|l0 ts0|l0 ts0|l0 ts0 pf0|ss0]; try (apply Hns; exact Hst).
+      clear Hns.
+      (* SD: restricted to the declared variables *)
+      destruct (Nat.leb 2 (length (filter (fun v => mem v M) vs0))) eqn:E2; [|destruct Hst].
+      destruct Hst as [<-|[]].
+      assert (HinM : incl (filter (fun v => mem v M) vs0) M).
+      { intros x Hx. apply filter_In in Hx. now apply mem_In. }
+      assert (Hnn : nonnil (filter (fun v => mem v M) vs0) = true).
+      { destruct (filter (fun v => mem v M) vs0); [discriminate|reflexivity]. }
+      split; [|split; [|split]].
+      - repeat split; cbn [kshape nodecl stmt_mvs stmt_nullary]; try assumption; try reflexivity.
+        + intros x Hx. now apply HMV, HinM.
+        + intros x [].
+      - exact HinM.
+      - cbn [wf_stmt]. rewrite Hnn. cbn [andb]. now apply forallb_mem_incl.
+      - reflexivity. }
+    assert (Hblock : entry_ok (SB (ess ++ [SP l ts pf])) /\ incl (stmt_mvs (SB (ess ++ [SP l ts pf]))) M).
+    { assert (Hin : forall st, In st (ess ++ [SP l ts pf]) -> In st all).
+      { intros st Hst. apply in_app_or in Hst. destruct Hst as [Hst|[<-|[]]]; [|now left].
+        right. apply in_or_app. now left. }
+      split.
+      - repeat split.
+        + rewrite kshape_block. apply forallb_forall. intros st Hst. now apply (Hall_ok st (Hin st Hst)).
+        + rewrite nodecl_block. apply forallb_forall. intros st Hst. now apply (Hall_ok st (Hin st Hst)).
+        + cbn [stmt_mvs]. intros x Hx. apply in_flat_map in Hx. destruct Hx as [st [Hst Hx]].
+          destruct (Hall_ok st (Hin st Hst)) as (_ & _ & HV & _). now apply HV.
+        + cbn [stmt_nullary]. intros x Hx. apply in_flat_map in Hx. destruct Hx as [st [Hst Hx]].
+          destruct (Hall_ok st (Hin st Hst)) as (_ & _ & _ & HZ). now apply HZ.
+      - cbn [stmt_mvs]. intros x Hx. apply in_flat_map in Hx. destruct Hx as [st [Hst Hx]].
+        now apply (HallM st (Hin st Hst)). }
+    destruct Hblock as [EB MB].
+    assert (HC : C <> []) by (apply sort_uniq_nonnil; discriminate).
+    assert (HLP : In LP C) by (apply sort_uniq_In; now left).
+    assert (HRP : In RP C) by (apply sort_uniq_In; right; now left).
+    split; [|split].
+    - (* wf_db *)
+      unfold wf_db. rewrite wf_header by exact HC.
+      rewrite wf_stmts_nodecl.
+      + destruct (entry_wf _ M EB MB HMV) as [W D]. cbn [wf_stmts]. now rewrite W.
+      + apply Forall_forall. intros st Hst. now apply Hkept.
+    - (* declares_all *)
+      unfold declares_all. rewrite chk_header.
+      { rewrite (chk_stmts_kept kept C M cs2); try assumption.
+        - destruct (stmts_consts_In all cs ECS (SP l ts pf) (or_introl eq_refl)) as [cP [HcP IcP]].
+          assert (Hcb : exists cb, stmt_consts (SB (ess ++ [SP l ts pf])) = Some cb /\ incl cb cs).
+          { cbn [stmt_consts]. rewrite go_stmt_consts.
+            assert (Hin : forall st, In st (ess ++ [SP l ts pf]) -> In st all).
+            { intros st Hst. apply in_app_or in Hst. destruct Hst as [Hst|[<-|[]]]; [|now left].
+              right. apply in_or_app. now left. }
+            revert Hin. generalize (ess ++ [SP l ts pf])%list. intros q. induction q as [|a q IHq]; intros Hin.
+            - exists []. split; [reflexivity|intros ? []].
+            - destruct (stmts_consts_In all cs ECS a (Hin a (or_introl eq_refl))) as [ca [Hca Ica]].
+              destruct IHq as [cq [Hcq Icq]]; [intros st Hst; apply Hin; now right|].
+              exists (ca ++ cq)%list. cbn [stmts_consts]. rewrite Hca, Hcq. split; [reflexivity|].
+              now apply incl_app. }
+          destruct Hcb as [cb [Hcb Icb]].
+          cbn [chk_stmts]. rewrite (chk_kept _ C M cb); try assumption; try reflexivity.
+          + now destruct EB as (_ & N & _).
+          + intros x Hx. apply sort_uniq_In. apply in_or_app. right. apply in_or_app. left. now apply Icb.
+        - apply Forall_forall. intros st Hst. destruct (Hkept st Hst) as ((_ & N & _) & HM & _). split; assumption.
+        - intros x Hx. apply sort_uniq_In. apply in_or_app. right. apply in_or_app. now right. }
+    - (* labels_resolve *)
+      exists (SC C :: (match M with [] => [] | _ => [SV M] end) ++ kept)%list, ess, l, ts, pf, labels.
+      split; [|split; [assumption|]].
+      + cbn [app]. now rewrite <- app_assoc.
+      + intros x Hx.
+        assert (Hx2 : In x n2) by (apply in_or_app; left; apply in_or_app; now left).
+        destruct (map_opt_In _ _ _ EN x Hx2) as [st [Hst _]].
+        pose proof (dict_get_In _ _ _ Hst) as Hin.
+        rewrite Forall_forall in CF. destruct (CF _ Hin) as [_ Hlab]. cbn [fst snd] in Hlab.
+        assert (Hk : In st kept).
+        { apply in_flat_map. exists (Some x, st). split; [assumption|].
+          unfold keep_entry. cbn [fst snd key_in].
+          replace (mem x n2) with true by (symmetry; now apply mem_In).
+          destruct st; try (now left). destruct Hlab. }
+        cbn [flat_map stmt_labels app]. rewrite flat_map_app. apply in_or_app. right.
+        apply in_flat_map. exists st. split; assumption.
+  Qed.
+End Inv.
